@@ -133,6 +133,10 @@ def _arg_fate(prog, fn, c, idx, allow_fns, seen, depth):
         cl = prog.fn_item_args(c)
         if cl and all(diverges(f) for f in cl):
             return [Fate('panics', c, 'error arm diverges (exit/panic) in ' + cl[0].path)]
+        # `.unwrap_or_else(|e| { handler(e); fallback })`: the error is not dropped when the closure hands its
+        # payload on (to a call or into a value); `|_| fallback` drops it
+        if cl and all(_reads_param(f, 2 if f.kind == 'Closure' else 1) for f in cl):
+            return [Fate('matched', c, 'error payload handled in ' + cl[0].path)]
     if names & DISCARDING:
         return [Fate('discarded', c, 'consumed by ' + c.name)]
     if names & PROPAGATING or any(n.endswith('::from_residual') for n in names):
@@ -165,6 +169,14 @@ def _arg_fate(prog, fn, c, idx, allow_fns, seen, depth):
                     return local_fates(prog, fn, c.dest[0], allow_fns, seen, depth + 1)
             return sub or [Fate('discarded', c, 'callee %s never reads it' % callee.path)]
     return [Fate('escapes', c, 'argument %d of %s' % (idx, c.name))]
+
+
+def _reads_param(fn, local):
+    """is the parameter local used as a call argument or moved into another value (not merely dropped)"""
+    for bi, kind, idx, how, pl in fn.uses_of(local):
+        if kind in ('arg', 'stmt', 'callee', 'switch'):
+            return True
+    return False
 
 
 def diverges(fn):
